@@ -654,7 +654,7 @@ class Run:
                       f"(later wins) is {list(zip(ts, np.round(vs, 4).tolist()))}")
         else:
             self.R.check("memory-is-union-later-wins", True, "")
-        if not self.inner_stale or True:
+        if ok:
             for nm, yy in inner_memories(self.f):
                 ok2 = (list(yy.index) == [self.im.label(t) for t in ts] and np.allclose(np.asarray(yy.values, dtype=float), vs, rtol=1e-12, atol=1e-12))
                 self.R.check("memory-is-union-later-wins", ok2, self.d(f"after {what} component {nm} remembers {len(yy)} points "
@@ -1089,10 +1089,30 @@ def fits_spec(spec, fh):
     return True
 
 
+def runnable(spec, kind):
+    """does this configuration run at all with this kind of index in the sandbox (pandas 2 + shim)?  plain calls only"""
+    im = IndexMap(kind)
+    fh = [1, 2]
+    n1 = max(spec.min_fit + 1, 8)
+    try:
+        with warnings.catch_warnings():
+            warnings.simplefilter("ignore")
+            f = spec.make()
+            f.fit(im.series(items(3, 2 + n1)), fh=fh)
+            f.predict()
+            f.update(im.series(items(3 + n1, 4 + n1)), update_params=True)
+            f.predict()
+            f.update_predict(im.series(items(5 + n1, 10 + n1)), cv=make_cv(("sliding", 2, 1, True), fh), update_params=False)
+            f.update_predict_single(im.series(items(5 + n1, 10 + n1)), update_params=False)
+        return True
+    except Exception:   # noqa: BLE001
+        return False
+
+
 def enumerate_spec(spec, tier):
     """the enumerated space of call sequences for one configuration, as four lists of (function, args)"""
     quick = tier == "quick"
-    kinds = ["range"] if quick else ["range", "int", "period"]
+    kinds = ["range"] if quick else ["range"] + [k for k in ("int", "period") if runnable(spec, k)]
     offsets = [0, 3]
     fhs = [fh for fh in FHS[: (3 if quick else 6)] if fits_spec(spec, fh)]
     n1s = [max(spec.min_fit + 1, 8)] if quick else [max(spec.min_fit + 1, 7), max(spec.min_fit + 2, 10)]
@@ -1161,7 +1181,7 @@ def run_spec(R, spec, tier, rng, budget_ms):
         im = IndexMap(rng.choice(kinds))
         fh = rng.choice(fhs)
         scen_random(R, spec, im, fh, rng.choice([0, 2, 5]), n1s[0] + rng.choice([0, 1, 2]), rng, rng.choice([3, 4, 5, 6]))
-    return ran, total, nseq
+    return ran, total, nseq, kinds
 
 
 def bounded(tier, seed):
@@ -1170,13 +1190,15 @@ def bounded(tier, seed):
         specs = all_specs()
     rng = random.Random(1000 + seed)
     R = Recorder("")
-    budget = 1500.0 if tier == "quick" else 17000.0
+    budget = 1300.0 if tier == "quick" else 12000.0
     ran = total = rnd = 0
+    nper = nint = 0
     with warnings.catch_warnings():
         warnings.simplefilter("ignore")
         for spec in specs:
-            a, b, c = run_spec(R, spec, tier, rng, budget)
+            a, b, c, kinds = run_spec(R, spec, tier, rng, budget)
             ran, total, rnd = ran + a, total + b, rnd + c
+            nper, nint = nper + ("period" in kinds), nint + ("int" in kinds)
     R.bound = (
         f"{len(specs)} forecaster configurations (8 NaiveForecaster variants incl. window_length=None and seasonal, 3 PolynomialTrend, "
         "2 ExponentialSmoothing, Theta(sp=1), 3 Ensemble aggregations, Multiplex x2, Stacking with a fixed-weight final regressor, "
@@ -1186,7 +1208,7 @@ def bounded(tier, seed):
         "default cv, update_params on/off, followed by one of 7 continuations (update with the same data, second update_predict, "
         "update_predict_single, ...), also starting 1-2 points inside the seen data; S3: update_predict_single with 1/3 new points, overlap "
         "0/2, then update or another single; horizons " + str(FHS[:3] if tier == "quick" else FHS) + "; RangeIndex at offsets 0/3"
-        + ("" if tier == "quick" else ", integer Index, monthly PeriodIndex") +
+        + ("" if tier == "quick" else f", integer Index ({nint} configurations run with it in the sandbox), monthly PeriodIndex ({nper} configurations)") +
         f". The enumerated space has {total} call sequences; a seeded sample of {ran} of them was run (sized per configuration by its cost), "
         f"plus {rnd} seeded random call sequences of 3-6 calls (S4). Not covered: exogenous X, in-sample/absolute horizons, prediction "
         "intervals, TimeSeriesForest-based and sklearn-regressor reductions, ARIMA/ETS/BATS/Prophet wrappers, gapped windows (window < step), "
